@@ -1,0 +1,65 @@
+// Copyright 2020-2025 Buf Technologies, Inc.
+//
+// Licensed under the Apache License, Version 2.0 (the "License");
+// you may not use this file except in compliance with the License.
+// You may obtain a copy of the License at
+//
+//      http://www.apache.org/licenses/LICENSE-2.0
+//
+// Unless required by applicable law or agreed to in writing, software
+// distributed under the License is distributed on an "AS IS" BASIS,
+// WITHOUT WARRANTIES OR CONDITIONS OF ANY KIND, either express or implied.
+// See the License for the specific language governing permissions and
+// limitations under the License.
+
+//go:build verif
+
+package bufcheckserverhandle
+
+// Contracts for the gocv verifier (see /verif/DESIGN.md). Comment-only.
+//
+// C03 / C04 (round 4, author r4l): the value layer of FIELD_SAME_DEFAULT (field_default.go). Spec vocabulary (rl_*) and
+// the documented model of math/big.Float live in /verif/specs/R4l.spec.
+//
+// asBigFloat: for bool and the four integer representations the result is a non-nil Float that represents the value
+// EXACTLY (no rounding: the zero Float has precision 0, which SetInt64/SetUint64 raise to 64), and it is never "NaN".
+// The float32/float64 cases are outside the engine's fragment (no floating-point theory): nothing is claimed for them.
+//@ func asBigFloat(val) (result, isNaN)
+//@   property C03 C04
+//@   modifies ghost.rl_fval, ghost.rl_fexact
+//@   ensures integer-not-nan: rl_isIntKind(val) ==> !isNaN && result != nil
+//@   ensures integer-exact: rl_isIntKind(val) && typeOf(val) != typeId(bool) ==> ghost.rl_fexact[result] && ghost.rl_fval[result] == rl_num(val)
+//@   ensures bool-exact: val != nil && typeOf(val) == typeId(bool) ==> ghost.rl_fexact[result] && ghost.rl_fval[result] == rl_num(val)
+//@   ensures integer-fresh: rl_isIntKind(val) ==> !old(allocated(result)) && allocated(result)
+//@   ensures old-floats-untouched: forall q ref :: old(allocated(q)) ==> ghost.rl_fval[q] == old(ghost.rl_fval)[q] && ghost.rl_fexact[q] == old(ghost.rl_fexact)[q]
+//
+// getDefault: the value a field's default is COMPARED by (fieldDefault.comparable; .printable is message text only):
+// bytes and string defaults as their text (a Go string), enum defaults as the enum NUMBER (int32), every other kind
+// (bool, the integer and floating-point kinds) as the Go value protoreflect.Value.Interface() yields.
+//@ pure func getDefault(descriptor) (r)
+//@   property C03 C04
+//@   ensures bytes-as-text: descriptor.Kind() == protoreflect.BytesKind ==> r.comparable != nil && typeOf(r.comparable) == typeId(string) && cast(string, r.comparable) == bstr(descriptor.Default().Bytes())
+//@   ensures string-as-text: descriptor.Kind() == protoreflect.StringKind ==> r.comparable != nil && typeOf(r.comparable) == typeId(string) && cast(string, r.comparable) == descriptor.Default().String()
+//@   ensures enum-as-number: descriptor.Kind() == protoreflect.EnumKind ==> r.comparable != nil && typeOf(r.comparable) == typeId(int32) && cast(int32, r.comparable) == descriptor.Default().Enum()
+//@   ensures others-as-is: descriptor.Kind() != protoreflect.BytesKind && descriptor.Kind() != protoreflect.StringKind && descriptor.Kind() != protoreflect.EnumKind ==> r.comparable == descriptor.Default().Interface()
+//
+// defaultsEqual: true IFF the two defaults denote the same value.
+//   * two text defaults (string/bytes): equal iff the same text;
+//   * a text default against a number/bool: never equal;
+//   * bool and the integer representations (int32, int64, uint32, uint64; enums are int32): equal iff the EXACT
+//     mathematical values are equal - no two different 64-bit integers are ever equal (9223372036854775807 vs
+//     9223372036854775806; uint64 18446744073709551615 vs int64 -1), whatever the two representations are;
+//   * hence reflexive on these kinds (C04: an unchanged default is not reported).
+// The floating-point cases (float32/float64, NaN) are outside the engine's fragment (no floating-point theory): the
+// statements are executed over the engine's real-number abstraction, and NO clause speaks about them.
+//@ pure func defaultsEqual(previous, current) (r)
+//@   property C03 C04
+//@   modifies ghost.rl_fval, ghost.rl_fexact
+//@   use rl_iface-eq-string
+//@   ensures text-by-content: rl_isText(previous.comparable) && rl_isText(current.comparable) ==> (r <==> cast(string, previous.comparable) == cast(string, current.comparable))
+//@   ensures text-never-equals-number: (rl_isText(previous.comparable) && rl_isIntKind(current.comparable)) || (rl_isIntKind(previous.comparable) && rl_isText(current.comparable)) ==> !r
+//@   ensures integers-by-exact-value: rl_isIntKind(previous.comparable) && rl_isIntKind(current.comparable) ==> (r <==> rl_num(previous.comparable) == rl_num(current.comparable))
+//@   ensures reflexive {C04}: (rl_isText(previous.comparable) || rl_isIntKind(previous.comparable)) && previous.comparable == current.comparable ==> r
+//@   canary ensures rl_isIntKind(previous.comparable) && rl_isIntKind(current.comparable) ==> r
+//@   canary ensures rl_isIntKind(previous.comparable) && rl_isIntKind(current.comparable) ==> !r
+//@   canary ensures rl_isText(previous.comparable) && rl_isText(current.comparable) ==> !r
